@@ -137,6 +137,15 @@ Theorem c16_patch_faithful :
 Proof. exact PatchP.patch_faithful. Qed.
 Print Assumptions c16_patch_faithful.
 
+(** ... also when it is applied to a document that lists the members of its objects in another
+    order than the document the patch was computed from (the API server applies the patch to
+    the stored JSON; the webhook computed it from its own re-encoding of the decoded object) *)
+Theorem c16_patch_faithful_any_member_order :
+  forall a a' b, Patch.wfb a = true -> Patch.wfb b = true -> PatchP.jeq a a' ->
+    exists r, Patch.apply_ops (Patch.create_patch a b) a' = Some r /\ PatchP.jeq r b.
+Proof. exact PatchP.patch_faithful_any_order. Qed.
+Print Assumptions c16_patch_faithful_any_member_order.
+
 (** ... and equal documents need no operation: with the idempotence theorems above, submitting
     the defaulted object again yields an empty patch *)
 Theorem c16_patch_of_equal_documents_is_empty :
